@@ -140,26 +140,6 @@ fn c16_encode_empty_mi_fp() {
         assert!(FP_SUM == bytesum(&out[..44]));
     }
 }
-/// same with two fixed-size attributes in front (PRIORITY, ICE-CONTROLLING): coverage grows with them
-#[kani::proof]
-#[kani::unwind(70)]
-#[kani::stub(hmac_sha1, rec_hmac_sha1)]
-#[kani::stub(crc32, rec_crc32)]
-fn c16_encode_two_attrs_mi_fp() {
-    let tx: [u8; 12] = kani::any();
-    let (p, t): (u32, u64) = (kani::any(), kani::any());
-    let msg = StunMessage { class: StunClass::Request, method: StunMethod::Binding, transaction_id: tx,
-        attributes: vec![StunAttribute::Priority(p), StunAttribute::IceControlling(t)] };
-    let key = [0x33u8; 8];
-    let out = encode_stun_message(&msg, Some(&key), true).unwrap();
-    assert!(out.len() == 20 + 8 + 12 + 24 + 8);
-    assert!(out[2..4] == [0, 52]);
-    assert!(out[20..24] == [0x00, 0x24, 0x00, 0x04] && out[24..28] == p.to_be_bytes());
-    assert!(out[28..32] == [0x80, 0x2A, 0x00, 0x08] && out[32..40] == t.to_be_bytes());
-    assert!(out[40..44] == [0x00, 0x08, 0x00, 0x14] && out[64..68] == [0x80, 0x28, 0x00, 0x04]);
-    unsafe { assert!(MI_LEN == 40 && MI_LENFIELD == 44 && FP_LEN == 64 && FP_LENFIELD == 52); }
-    core::mem::forget(msg);
-}
 /// without integrity/fingerprint: length field == len - 20 and nothing is appended
 #[kani::proof]
 #[kani::unwind(26)]
@@ -174,22 +154,26 @@ fn c16_encode_plain_length() {
     core::mem::forget(msg);
 }
 
-/// decode_stun_message: class/method/transaction id/XOR-MAPPED-ADDRESS recovered from what encode produced
+/// decode_stun_message on a Binding success response with one XOR-MAPPED-ADDRESS (IPv4) attribute:
+/// class / method / transaction id recovered, address un-XORed with the magic cookie (RFC 5389 15.2).
+/// The framing octets (type, length, attribute header) are literals, everything else is symbolic;
+/// that these are the octets encode emits is c16_xor_address_v4_layout_and_inverse + c16_encode_plain_length.
 #[kani::proof]
-#[kani::unwind(40)]
-fn c16_decode_of_encode_xor_mapped_v4() {
+#[kani::unwind(16)]
+fn c16_decode_xor_mapped_v4_literal() {
     let tx: [u8; 12] = kani::any();
-    let ip: [u8; 4] = kani::any();
-    let port: u16 = kani::any();
-    let addr = SocketAddr::V4(SocketAddrV4::new(Ipv4Addr::from(ip), port));
-    let msg = StunMessage::binding_success_response(tx, addr);
-    let out = encode_stun_message(&msg, None, false).unwrap();
-    assert!(out.len() == 32);
-    let d = decode_stun_message(&out).unwrap();
+    let xp: [u8; 2] = kani::any();
+    let xa: [u8; 4] = kani::any();
+    let m: [u8; 32] = [0x01, 0x01, 0x00, 0x0c, 0x21, 0x12, 0xA4, 0x42,
+        tx[0], tx[1], tx[2], tx[3], tx[4], tx[5], tx[6], tx[7], tx[8], tx[9], tx[10], tx[11],
+        0x00, 0x20, 0x00, 0x08, 0x00, 0x01, xp[0], xp[1], xa[0], xa[1], xa[2], xa[3]];
+    let d = decode_stun_message(&m).unwrap();
     assert!(d.class == StunClass::SuccessResponse && d.method == StunMethod::Binding && d.transaction_id == tx);
-    assert!(d.xor_mapped_address == Some(addr) && d.xor_peer_address.is_none() && d.xor_relayed_address.is_none());
-    assert!(!d.use_candidate && d.lifetime.is_none() && d.error_code.is_none());
-    core::mem::forget(msg); core::mem::forget(d);
+    let port = u16::from_be_bytes(xp) ^ 0x2112;
+    let ip = Ipv4Addr::new(xa[0] ^ 0x21, xa[1] ^ 0x12, xa[2] ^ 0xA4, xa[3] ^ 0x42);
+    assert!(d.xor_mapped_address == Some(SocketAddr::V4(SocketAddrV4::new(ip, port))));
+    assert!(d.xor_peer_address.is_none() && d.xor_relayed_address.is_none() && !d.use_candidate && d.lifetime.is_none() && d.error_code.is_none());
+    core::mem::forget(d);
 }
 
 // ---- C07: totality of the decoder, one harness per concrete length
@@ -235,4 +219,53 @@ fn c16_decode_of_encode_use_candidate() {
     let d = decode_stun_message(&out).unwrap();
     assert!(d.use_candidate && d.class == StunClass::Request && d.method == StunMethod::Binding && d.transaction_id == tx);
     core::mem::forget(msg); core::mem::forget(d);
+}
+
+/// attribute walk: an unknown comprehension-optional attribute with a NON-multiple-of-4 length is
+/// skipped together with its padding, and the attribute after it (LIFETIME) is decoded (RFC 5389 15)
+#[kani::proof]
+#[kani::unwind(16)]
+fn c16_decode_skips_padding_literal() {
+    let tx: [u8; 12] = kani::any();
+    let junk: [u8; 8] = kani::any();   // 5 value bytes + 3 padding bytes (padding content is arbitrary per RFC)
+    let lt: [u8; 4] = kani::any();
+    let m: [u8; 40] = [0x01, 0x03, 0x00, 0x14, 0x21, 0x12, 0xA4, 0x42,
+        tx[0], tx[1], tx[2], tx[3], tx[4], tx[5], tx[6], tx[7], tx[8], tx[9], tx[10], tx[11],
+        0x80, 0x22, 0x00, 0x05, junk[0], junk[1], junk[2], junk[3], junk[4], junk[5], junk[6], junk[7],
+        0x00, 0x0D, 0x00, 0x04, lt[0], lt[1], lt[2], lt[3]];
+    let d = decode_stun_message(&m).unwrap();
+    assert!(d.class == StunClass::SuccessResponse && d.method == StunMethod::Allocate);
+    assert!(d.lifetime == Some(u32::from_be_bytes(lt)));
+    assert!(d.xor_mapped_address.is_none() && !d.use_candidate);
+    core::mem::forget(d);
+}
+/// ERROR-CODE (RFC 5389 15.6): class*100 + number; XOR-RELAYED-ADDRESS and XOR-PEER-ADDRESS land in their own fields
+#[kani::proof]
+#[kani::unwind(16)]
+fn c16_decode_error_and_relayed_literal() {
+    let tx: [u8; 12] = kani::any();
+    let (cls, num): (u8, u8) = (kani::any(), kani::any());
+    kani::assume(cls <= 7 && num <= 99);
+    let xp: [u8; 2] = kani::any();
+    let xa: [u8; 4] = kani::any();
+    let m: [u8; 52] = [0x01, 0x13, 0x00, 0x20, 0x21, 0x12, 0xA4, 0x42,
+        tx[0], tx[1], tx[2], tx[3], tx[4], tx[5], tx[6], tx[7], tx[8], tx[9], tx[10], tx[11],
+        0x00, 0x09, 0x00, 0x04, 0x00, 0x00, cls, num,
+        0x00, 0x16, 0x00, 0x08, 0x00, 0x01, xp[0], xp[1], xa[0], xa[1], xa[2], xa[3],
+        0x00, 0x12, 0x00, 0x08, 0x00, 0x01, xp[1], xp[0], xa[3], xa[2], xa[1], xa[0]];
+    let d = decode_stun_message(&m).unwrap();
+    assert!(d.class == StunClass::ErrorResponse && d.method == StunMethod::Allocate && d.transaction_id == tx);
+    assert!(d.error_code == Some(cls as u16 * 100 + num as u16));
+    let relayed = SocketAddr::V4(SocketAddrV4::new(Ipv4Addr::new(xa[0] ^ 0x21, xa[1] ^ 0x12, xa[2] ^ 0xA4, xa[3] ^ 0x42), u16::from_be_bytes(xp) ^ 0x2112));
+    let peer = SocketAddr::V4(SocketAddrV4::new(Ipv4Addr::new(xa[3] ^ 0x21, xa[2] ^ 0x12, xa[1] ^ 0xA4, xa[0] ^ 0x42), u16::from_be_bytes([xp[1], xp[0]]) ^ 0x2112));
+    assert!(d.xor_relayed_address == Some(relayed) && d.xor_peer_address == Some(peer) && d.xor_mapped_address.is_none());
+    core::mem::forget(d);
+}
+/// a message whose length field disagrees with the datagram is rejected, never mis-read
+#[kani::proof]
+#[kani::unwind(16)]
+fn c16_decode_length_mismatch_rejected() {
+    let mut m: [u8; 24] = kani::any();
+    kani::assume(u16::from_be_bytes([m[2], m[3]]) != 4);
+    assert!(decode_stun_message(&m).is_err());
 }
